@@ -84,6 +84,9 @@ def stepLine (s : St) (ws : List String) : St × String :=
           | some p => if inRange s [co, a, p] then res (removeAssembly s co a (some p)) else bad
           | none => bad
       | _, _ => bad
+  | ["setmeta", c, f, t] => match parseNat? c, parseNat? f, parseNat? t with
+      | some c, some f, some t => if inRange s [c] then res (setMeta s c f t, true) else bad
+      | _, _, _ => bad
   | ["removeAll", p] => match parseNat? p with
       | some p => if inRange s [p] then res (removeAllCode s p) else bad
       | _ => bad
